@@ -11,6 +11,7 @@ pub mod c09;
 pub mod c10;
 pub mod c11;
 pub mod c12;
+pub mod c14;
 pub mod c15;
 pub mod c16;
 pub mod c17;
@@ -31,6 +32,7 @@ pub fn run(prop: &str, ctx: &Ctx) -> Option<Report> {
         "C07" => c07::run(ctx),
         "C09" => c09::run(ctx),
         "C10" => c10::run(ctx),
+        "C14" => c14::run(ctx),
         "C15" => c15::run(ctx),
         "C16" => c16::run(ctx),
         "C17" => c17::run(ctx),
